@@ -40,6 +40,42 @@ CONSTRUCTS = [
 ]
 SUFFIX = "_z end\n"
 
+# constructs whose END matters: (name, head-after-magic, body ending with the closing delimiter, rest).  In CIF 2.0 the scanner
+# looks one character ahead after a closing delimiter (for the ':' of a table key, for a third quote, for the whitespace that
+# must follow); when that delimiter is the last character buffered the look-ahead refills the scan buffer, and at the offsets
+# where the buffer has just become full it is compacted / doubled at that very moment.
+END_CONSTRUCTS = [
+    ("text-value", "data_t\n_a\n", ";line one\nline two\n;", "\n_b 2\n"),
+    ("text-in-list", "data_t\n_a [\n", ";tf\nmore\n;", "\n 'q' ]\n_b 2\n"),
+    ("triple-value", "data_t\n_a\n", "'''abc\ndef'''", " _b 2\n"),
+    ("triple-dq-value", "data_t\n_a\n", '"""x y"""', "\n_b 2\n"),
+    ("quoted-value", "data_t\n_a\n", "'quoted v'", " _b 2\n"),
+    ("dquoted-value", "data_t\n_a\n", '"dq"', "\n_b 2\n"),
+    ("quoted-key", "data_t\n_a {\n", "'key'", ":v 'k2':'w'}\n_b 2\n"),
+    ("triple-key", "data_t\n_a {\n", "'''tk'''", ":[1 2]}\n_b 2\n"),
+    ("unquoted-value", "data_t\n_a\n", "plain_value", "\n_b 2\n"),
+    ("name", "data_t\n", "_a_name", " 1 _b 2\n"),
+]
+
+
+def scan_buffer_points():
+    """byte offsets (ASCII / LF input, 4096-byte reads) at which the scan buffer of parser.c is compacted or doubled: the first
+    multiple of the read size at which fewer than BUF_MIN_FILL units of room remain, and its multiples — derived from the
+    constants the translator extracts from the sources"""
+    consts = {}
+    path = os.path.join(os.path.dirname(os.path.abspath(__file__)), "..", "..", "lean", "CifModel", "Gen", "ParseConsts.lean")
+    try:
+        import re
+        for k, v in re.findall(r"^def (\w+) : Nat := (\d+)", open(path).read(), re.M):
+            consts[k] = int(v)
+    except OSError:
+        pass
+    size = consts.get("bufSizeInitial", 131200)
+    minfill = consts.get("bufMinFill", 2050)
+    read = consts.get("byteBufferSize", 4096)
+    first = ((size - minfill) // read + 1) * read
+    return [first, 2 * first], read
+
 
 def req(enc, style, n, head, pad, tail):
     return "align %s %s %d %s %s %s" % (enc, style, n, head, pad, tail)
@@ -70,6 +106,18 @@ def generate(seed, tier):
                         yield req("utf8", r.choice(["lf", "crlf", "cr", "mix"]), boundary - k + d, h, r.choice("scb"), t)
         # a tail that ends exactly one read-buffer further: the final fill is a short one
         yield req("utf8", "crlf", 4096 - len(tail.encode("utf-8")), h, "s", t)
+    # the END of a value / key / name on the offsets where the scan buffer is compacted or doubled, and on the read-buffer boundaries
+    points, read = scan_buffer_points()
+    for name, head, body, rest in END_CONSTRUCTS:
+        h = hexs(V2 + head)
+        t = hexs(body + rest + SUFFIX)
+        blen = len(body.encode("utf-8"))
+        for b in points + [read, 2 * read]:
+            big = b > 4 * read
+            for d in (range(-6, 7) if thorough else ((-2, -1, 0, 1, 2) if big else (-1, 0, 1))):
+                yield req("utf8", "lf", b - blen + d, h, "s" if (d % 2 == 0) else "c", t)
+            if thorough:
+                yield req("utf8", "crlf", b - blen - body.count("\n"), h, "s", t)
     # random offsets
     for _ in range(3000 if thorough else 300):
         name, v2, head, tail = r.choice(CONSTRUCTS)
